@@ -285,7 +285,40 @@ func runCase(c *wk.Ctx, i int) {
 			bodyOK := true
 			for j := 0; j < nops && bodyOK; j++ {
 				k := kg.Pick(r)
-				switch x := r.Intn(20); {
+				switch x := r.Intn(22); {
+				case x >= 20:
+					// a small batch applied to the transaction
+					b := new(leveldb.Batch)
+					type rec struct {
+						del  bool
+						k, v []byte
+					}
+					var recs []rec
+					for q := 0; q < 1+r.Intn(6); q++ {
+						kk := kg.Pick(r)
+						if r.Intn(4) == 0 {
+							b.Delete(kk)
+							recs = append(recs, rec{true, kk, nil})
+						} else {
+							vv := txValue(id, j*8+q+100000, 20+r.Intn(100))
+							b.Put(kk, vv)
+							recs = append(recs, rec{false, kk, vv})
+						}
+					}
+					if err := tr.Write(b, nil); err != nil {
+						bodyOK = false
+						break
+					}
+					for _, rc := range recs {
+						if rc.del {
+							txM.Delete(rc.k)
+							note(rc.k, "tx%d batch-delete j=%d", id, j)
+						} else {
+							txM.Put(rc.k, rc.v)
+							note(rc.k, "tx%d batch-put j=%d", id, j)
+						}
+					}
+					c.Count("batches_written_into_transactions", 1)
 				case x < 11:
 					v := txValue(id, j, model.ValueSize(r, os.O.GetBlockSize(), os.O.GetWriteBuffer()))
 					if err := tr.Put(k, v, nil); err != nil {
